@@ -211,7 +211,7 @@ def run(ctx, replay):
     with ThreadPoolExecutor(max_workers=len(vs)) as ex:
         exes = list(ex.map(lambda v: tc.build(**v[1]), vs))
     ctx.pending, ctx.nbad = [], 0
-    ncase = 400 if ctx.tier == "quick" else 4000
+    ncase = 1500 if ctx.tier == "quick" else 6000
     for (label, kw), exe in zip(vs, exes):
         W = tc.PACKET_W[kw["packets"]] if kw.get("packets") else kw["W"]
         if replay:
